@@ -45,8 +45,18 @@ def make_order(kind: str, **kw):
 THETAS = [10, 20, 30, 45, 60, 75, 89, 90, 91, 105, 120, 135, 150, 165]
 
 
-def random_order(rng, m=None, allow_Kgtm=True, families=None):
-    """returns (label, order). m in {2,3,4}."""
+def random_order(rng, m=None, allow_Kgtm=True, families=None, rowscale_p=0.0):
+    """returns (label, order). m in {2,3,4}.  rowscale_p: probability of describing the drawn cone by facet rows that are
+    not unit normals (each row times a positive factor) — the same cone, a different representation."""
+    label, order = _random_order(rng, m, allow_Kgtm, families)
+    if rowscale_p and rng.random() < rowscale_p:
+        W0 = np.asarray(order.ordering_cone.W, float)
+        f = rng.choice([0.25, 0.5, 2.0, 3.0, 5.0, 8.0], size=(len(W0), 1)) if rng.random() < 0.6 else float(rng.choice([0.2, 4.0, 10.0]))
+        return label + "-rowscaled", make_order("W", W=W0 * f)
+    return label, order
+
+
+def _random_order(rng, m=None, allow_Kgtm=True, families=None):
     if m is None:
         m = int(rng.choice([2, 2, 2, 3, 3, 4]))
     fams = families or ["orthant", "theta", "cone3d", "icecream", "random", "randomK"]
